@@ -142,10 +142,10 @@ def eval_one(name, tier='quick'):
                          cwd=VERIF, timeout=400)
         except subprocess.TimeoutExpired:
             return name, pid, 'TIMEOUT', 'check did not finish within 400 s'
-        inherited = S.inherited_reports(label)
+        inherited = S.inherited_reports(label, pid)
         rules = sorted({r for r, k in S.reported(out) if (r, k) not in inherited})
         if rc == 1 and not rules:
-            rc = 0
+            rc = 2 if S.stopped_early(out) else 0
         verdict = {0: 'MISSED', 1: 'CAUGHT', 2: 'CANNOT-CONCLUDE'}.get(rc, 'rc=%d' % rc)
         lines = [l for l in out.strip().splitlines() if 'conda' not in l]
         note = ', '.join(rules) if rules else (lines[-1][:200] if lines else '')
